@@ -100,6 +100,36 @@ def _replay(real, engine, rec, c15):
                         now = real.project_raw(saved[0][i], {})
                         if json.dumps(now, sort_keys=True) != json.dumps(exp, sort_keys=True):
                             return {"kind": "stale", "detail": "a value saved at the yield changed after %s" % variant, "expected": exp, "observed": now}
+        # the same unification with the atoms of t2 taken from a SECOND engine (atoms of one name unify
+        # across engines; variables are shared through env)
+        yp2 = real.YP()
+        t1 = real.build(yp, rec["t1"], env)
+        t2 = real.build(yp2, rec["t2"], env)
+        g = iter(engine.unify(t1, t2))
+        try:
+            next(g)
+            y = True
+        except StopIteration:
+            y = False
+        if y != rec["y"]:
+            return {"kind": "cross-engine", "detail": "with the second term's atoms from another engine: yields=%s, specified %s" % (y, rec["y"])}
+        if y:
+            at = real.project_tuple([t1, t2] + vs)
+            if json.dumps(at, sort_keys=True) != json.dumps(rec["at"], sort_keys=True):
+                return {"kind": "cross-engine", "detail": "with the second term's atoms from another engine the unifier differs", "expected": rec["at"], "observed": at}
+        g.close()
+        # two unifications created before either is advanced (the objects returned by unify must not
+        # share state): unify(t1,t2) and unify(t2,t1), then each run to its end
+        ga = iter(engine.unify(real.build(yp, rec["t1"], env), real.build(yp, rec["t2"], env)))
+        gb = iter(engine.unify(real.build(yp, rec["t2"], env), real.build(yp, rec["t1"], env)))
+        for which, gg in (("first", ga), ("second", gb)):
+            n = 0
+            for _ in gg:
+                n += 1
+                if n > 2:
+                    break
+            if n != (1 if rec["y"] else 0):
+                return {"kind": "created-together", "detail": "of two unifications created before either was advanced, the %s yielded %d times, specified %d" % (which, n, 1 if rec["y"] else 0)}
         # follow-up: after the unification has been undone (three times), every variable must again be
         # exactly what the stack alone makes it: unify it with a new atom and look at all three
         pv = rec["pv"]
